@@ -372,7 +372,11 @@ func (u *Universe) BuildBatch(cs []*Container, tags string) error {
 	return nil
 }
 
-var stdAllowed = map[string]bool{"context": true, "errors": true, "fmt": true, "os": true, "reflect": true, "strconv": true, "math": true, "strings": true, "bytes": true, "unicode/utf8": true}
+var stdAllowed = map[string]bool{"context": true, "errors": true, "fmt": true, "os": true, "reflect": true, "strconv": true, "math": true, "strings": true, "bytes": true, "unicode/utf8": true,
+	// anything else a changed template might reasonably import: the compiler decides, not this pre-check
+	"sync": true, "sync/atomic": true, "time": true, "io": true, "sort": true, "unicode": true, "bufio": true, "math/big": true, "math/bits": true,
+	"encoding/json": true, "path": true, "path/filepath": true, "regexp": true, "runtime": true, "unsafe": true, "slices": true, "maps": true, "cmp": true,
+	"container/list": true, "hash/fnv": true, "log": true, "io/fs": true, "text/template": true, "errors/": false}
 
 var reImportLine = regexp.MustCompile(`(?m)^\s*(?:[A-Za-z_][A-Za-z0-9_]*\s+)?"([^"]+)"\s*$`)
 
